@@ -7,9 +7,9 @@
 EXTENDS TeakDecode, TLC
 CONSTANTS Lo, Hi
 ASSUME TableWellFormed
-VARIABLE w
-Init == w \in Lo..Hi
-Next == UNCHANGED w
-Inv  == AtMostOneRow(w) /\ CanonSameRow(w)
-InvSlow == BucketsSound(w) /\ UnusedIrrelevant(w)
+VARIABLE vW
+Init == vW \in Lo..Hi
+Next == UNCHANGED vW
+Inv  == AtMostOneRow(vW) /\ CanonSameRow(vW)
+InvSlow == BucketsSound(vW) /\ UnusedIrrelevant(vW)
 =============================================================================
